@@ -87,6 +87,21 @@ def group_loop_handler(ex, s, fr, it):
     if kwmode:
         return _kw_group_loop(ex, s, fr, N, G, gdict, idx0, self_obj)
     label = f"{fr.finfo.qualname}/loop1"
+    mon_ = st.ghost.get("monitor")
+    if mon_ is not None and mon_.exp is not None and len(idx0) <= 1:
+        # the number of repeats the code performs is the number the definition prescribes (conforming variant)
+        members = []
+        for k_, v_ in gdict.items():
+            members.append(k_)
+            if isinstance(v_, tuple) and len(v_) == 2 and isinstance(v_[1], dict):
+                members.extend(v_[1].keys())  # flags of a bitfield member / members of a nested group
+        spec = next((mon_.exp.families[m_] for m_ in members if m_ in mon_.exp.families), None)
+        gname = getattr(spec, "group", None)
+        if gname in mon_.exp.group_counts:
+            want = mon_.exp.group_counts[gname]
+            st.prove(f"{mon_.label}/C02:repeats:{gname}", mk_bool(N == zint(want)), kind="ensures",
+                     detail=f"group {gname} is repeated as often as its count field / the payload length prescribes",
+                     assume_after=False)
     which = st.choice(2, "group-loop")
     if which == 0:
         i = z3.Int(fresh_name("rep"))
@@ -643,7 +658,7 @@ def inspect_message(ex, reg, obj, lab, c_rope, i_rope, P):
 # ---------------------------------------------------------------------------------------------------------
 # native replay of instance obligations
 # ---------------------------------------------------------------------------------------------------------
-_NAME_RE = re.compile(r"init\[(GET|SET|POLL) (unknown-id|odd-id|[0-9a-f]{4})(?: (?!pbf=|nopayload)[^\]]*?)?(?: (pbf=[01]|nopayload))?( conforming)?\]/(.*)")
+_NAME_RE = re.compile(r"init\[(GET|SET|POLL) (unknown-id|odd-id|[0-9a-f]{4})(?: (?!pbf=|nopayload)[^\]]*?)?(?: (pbf=[01]|nopayload))?( by-names| by-ints)?( conforming)?\]/(.*)")
 
 
 def replay_instance(o):
@@ -666,16 +681,23 @@ def replay_instance(o):
         k = bytes.fromhex(m.group(2))
         cls, mid = k[0:1], k[1:2]
     variant = m.group(3) or "nopayload"
-    what = m.group(5)
+    addressing = (m.group(4) or "").strip()
+    what = m.group(6)
     kwargs = {}
     if variant != "nopayload":
         kwargs = {"payload": inp.get("payload", b""), "parsebitfield": variant == "pbf=1"}
-    info["call"] = f"UBXMessage({cls!r}, {mid!r}, {mode}, " + ", ".join(f"{k}={v!r}" for k, v in kwargs.items()) + ")"
+    a_cls, a_id = cls, mid
+    if addressing == "by-ints":
+        a_cls, a_id = cls[0], mid[0]
+    elif addressing == "by-names":
+        ids_, classes_, _ = tables()
+        a_cls, a_id = classes_.get(cls), ids_.get(cls + mid)
+    info["call"] = f"UBXMessage({a_cls!r}, {a_id!r}, {mode}, " + ", ".join(f"{k}={v!r}" for k, v in kwargs.items()) + ")"
     out = io.StringIO()
     msg = exc = None
     with contextlib.redirect_stdout(out), contextlib.redirect_stderr(out):
         try:
-            msg = UBXMessage(cls, mid, mode, **kwargs)
+            msg = UBXMessage(a_cls, a_id, mode, **kwargs)
         except Exception as e:  # noqa
             exc = e
     info["observed"] = f"raised {type(exc).__name__}: {exc}"[:300] if exc else f"returned {msg!r}"[:300]
